@@ -1,8 +1,8 @@
 // Engine K harness module for iceoryx2_bb_container::flatmap::FlatMap (heap flavour; the body is MetaFlatMap shared with the
 // relocatable and fixed-size flavours) on the compiled real code: a SYMBOLIC SEQUENCE of STEPS operations (insert / remove /
 // write through get_mut_ref) with keys from 0..KEYS on a map of capacity CAP, compared step by step with an array model
-// (`Option<u8>` per key).  BOUNDED: capacity 2, 3 distinct keys; 3 free steps from new(), and the fixed shape insert, insert,
-// remove, get_mut_ref-write with symbolic keys and values (a hole in front of a stored entry).
+// (`Option<u8>` per key).  BOUNDED: capacity 2, 3 distinct keys; the fixed shape insert, insert, remove, get_mut_ref-write with
+// symbolic keys and values (a hole in front of a stored entry).  (A free symbolic sequence of 3-4 steps did not finish in 25 min.)
 use super::*;
 extern crate alloc;
 fn nofmt(_a: core::fmt::Arguments<'_>) -> alloc::string::String { alloc::string::String::new() }
@@ -10,7 +10,6 @@ fn nolog(_l: iceoryx2_log::LogLevel, _o: core::fmt::Arguments, _a: core::fmt::Ar
 
 const CAP: usize = 2;
 const KEYS: usize = 3;
-const STEPS: usize = 3;
 
 fn count(model: &[Option<u8>; KEYS]) -> usize {
     let mut n = 0;
@@ -29,43 +28,6 @@ fn agree(m: &FlatMap<u8, u8>, model: &[Option<u8>; KEYS]) -> bool {
     }
     let n = count(model);
     m.len() == n && m.is_empty() == (n == 0) && m.is_full() == (n == CAP)
-}
-
-#[kani::proof]
-#[kani::unwind(6)]
-#[kani::stub(alloc::fmt::format, nofmt)]
-#[kani::stub(iceoryx2_log::__internal_print_log_msg, nolog)]
-fn flatmap_sequence_cap2() {
-    let mut m = FlatMap::<u8, u8>::new(CAP);
-    let mut model: [Option<u8>; KEYS] = [None; KEYS];
-    let mut step = 0;
-    while step < STEPS {
-        let op: u8 = kani::any();
-        let v: u8 = kani::any();
-        let key: u8 = kani::any();
-        kani::assume((key as usize) < KEYS);
-        let k = key as usize;
-        if op % 3 == 0 {
-            // insert: refused exactly for a stored key (KeyAlreadyExists) or, for a new key, when the map is full (IsFull)
-            let r = m.insert(key, v);
-            if model[k].is_some() { assert!(r == Err(FlatMapError::KeyAlreadyExists)); }
-            else if count(&model) == CAP { assert!(r == Err(FlatMapError::IsFull)); }
-            else { assert!(r.is_ok()); model[k] = Some(v); }
-        } else if op % 3 == 1 {
-            let r = m.remove(&key);
-            assert!(r == model[k]);
-            model[k] = None;
-        } else {
-            // get_mut_ref: a reference to THIS key's value (or None); a write through it changes this key only
-            match m.get_mut_ref(&key) {
-                Some(r) => { assert!(model[k] == Some(*r)); *r = v; model[k] = Some(v); }
-                None => assert!(model[k].is_none()),
-            }
-        }
-        assert!(agree(&m, &model));
-        step += 1;
-    }
-    kani::cover!(model[1].is_some() && model[2].is_some() && model[0].is_none());
 }
 
 /// fixed shape, symbolic keys / values: two inserts, one removal, then a write through get_mut_ref -- the entry reached through
